@@ -106,9 +106,17 @@ func (g *Goroutine) callBuiltin(fr *frame, b *ssa.Builtin, args []Value) Value {
 		if need <= cap(base) {
 			out := base[:need]
 			for i, v := range add {
+				if r := g.p.race; r != nil {
+					r.accessDeep(g, &out[n+i], true, "append(in place) in "+fr.fn.String())
+				}
 				out[n+i] = copyVal(v)
 			}
 			return Value{K: KSlice, R: out}
+		}
+		if r := g.p.race; r != nil {
+			for i := range base {
+				r.accessDeep(g, &base[i], false, "append(copy) in "+fr.fn.String())
+			}
 		}
 		elem := b.Type().(*types.Signature).Params().At(0).Type().Underlying().(*types.Slice).Elem()
 		nc := growCap(elem, need, cap(base))
